@@ -63,14 +63,15 @@ def ob_chrom_order(ctx, res):
         res.fail("chromOrder/parallel/site", fn, "parallel source: expected one chromosome-order refusal")
         return
     # curr/next come from pop()/last() of the index
-    pat = [n for n in walk_no_nested_fn(fn.body) if n.k == "let" and n["pat"].k == "p_tuple" and len(n["pat"]["elems"]) == 2 and n.get("init") is not None
-           and ".chrom_indices.pop()" in up(n["init"]) and ".chrom_indices.last()" in up(n["init"])]
-    if len(pat) != 1 or not all(e.k == "p_ident" for e in pat[0]["pat"]["elems"]):
-        res.undecided("chromOrder/parallel/source", ifs[0], "the (current, next) pair of index entries is not bound by one `let (curr, next) = match ..pop() { Some(c) => (c, ..last()), .. }`")
+    from .slicing import curr_next_names
+    cn = curr_next_names(fn)
+    if cn is None or cn[0] == "bad":
+        res.undecided("chromOrder/parallel/source", ifs[0], "the (current, next) pair of index entries was not recognised (C18-F2 decides that pair)")
         return
-    curn, nxtn = [e["name"] for e in pat[0]["pat"]["elems"]]
+    curn, nxtn = cn[0], cn[1]
     from ..rules.interp import Interp, NotPure
-    nf = _tnorm(fn, strip(ifs[0]["cond"]))
+    from ..astq import tnorm_keeping
+    nf = tnorm_keeping(fn, strip(ifs[0]["cond"]), (curn, nxtn))
     rows = 0
     for allow in (False, True):
         for nxt in (None, 0, 2):        # next chromosome name ranks below / above the current one (adjacent entries are distinct)
